@@ -16,7 +16,10 @@ VARIABLE sheet
 C(t, x) == [t |-> t, x |-> x]
 Comps == {C("IDENT", "solid"), C("COLOR_VALUE", "red"), C("NUMBER", "0.5"), C("DIMENSION", "1px"), C("PERCENTAGE", "50%"),
           C("STRING", "\"s\""), C("URI", "url(x)"), C("COLOR_VALUE", "#abc"), C("FUNCTION", "f(1, 2)"), C("CALC", "calc(1px + 2px)"),
-          C("UNICODE-RANGE", "u+0-7f"), C("URI", "url(~u/x-1_2.png?a=b&c#f)")}      \* punctuation that is legal in an unquoted URL
+          C("UNICODE-RANGE", "u+0-7f"), C("URI", "url(~u/x-1_2.png?a=b&c#f)"),      \* punctuation that is legal in an unquoted URL
+          \* function names are case-insensitive also where the value parser special-cases them; calc() as an argument; calc() with
+          \* * and / (the renderer writes the white space around them in every way the grammar allows)
+          C("COLOR_VALUE", "rgb(1, 2, 3)"), C("COLOR_VALUE", "hsla(1, 2%, 3%, 0.5)"), C("FUNCTION", "f(calc(1px + 2px))"), C("CALC", "calc(2 * 3px / 4)")}
 Seps == {"sp", ",", "/"}
 Join(a, s, b) == IF s = "sp" THEN a \o b ELSE a \o <<C("op", s)>> \o b
 Values1 == {<<c>> : c \in Comps}
@@ -53,7 +56,11 @@ Others == {[k |-> "charset", enc |-> "utf-8"], [k |-> "fontface", body |-> <<D("
            \* strings and URLs whose content is a brace or a semicolon do not delimit the unknown rule
            [k |-> "unknown", text |-> "@x { a: \"{\" }"], [k |-> "unknown", text |-> "@x { a: \"}\" }"], [k |-> "unknown", text |-> "@x \";\" y;"]}
 
+NestedNs == <<[k |-> "namespace", prefix |-> "p", uri |-> "u"],
+              [k |-> "media", queries |-> <<"print">>, rules |-> <<Style(<<"p|a">>, OneDecl),
+                  [k |-> "media", queries |-> <<"tv">>, rules |-> <<Style(<<"p|b", "*|i">>, OneDecl), Style(<<"a[p|b]">>, OneDecl)>>]>>]>>
 LevelSheets ==
+    {NestedNs} \cup                                                                        \* namespaces reach every nesting level
     {<<Style(<<"a">>, <<D("left", v, "")>>)>> : v \in Values}                              \* L1
     \cup {<<Style(<<"a">>, b)>> : b \in Bodies}                                            \* L2
     \cup {<<Style(ss, OneDecl)>> : ss \in SelLists}                                         \* L3
